@@ -3,8 +3,10 @@ package main
 // Storage proxy installed through (*shard.Shard).VerifWrapDB: implements diskstore.DiskStore /
 // BucketManager / Bucket by delegation, counts every storage call issued inside an armed Write and
 // injects one fault: an error from the k-th fallible call, an error from the k-th bucket-manager
-// Get ("index construction fails"), or os.Exit at the k-th call / right before commit / right after
-// commit.  Bucket.Get cannot return an error in this interface, so reads are only counted (and can
+// Get ("index construction fails"), an error from the COMMIT STEP ITSELF (the Write callback runs to
+// completion and returns nil, then the storage refuses the commit: everything is rolled back and
+// Write returns an error - full disk, I/O error on the meta page), or os.Exit at the k-th call /
+// right before commit / right after commit.  Bucket.Get cannot return an error in this interface, so reads are only counted (and can
 // be crash points); the scans (ForEach/PrefixScan/RangeScan) can fail.
 import (
 	"encoding/hex"
@@ -21,8 +23,14 @@ const exitCodeInjected = 77
 
 var errInjected = errors.New("verif: injected storage fault")
 
+// the commit of the write transaction fails: returned from the closure that wraps the shard's
+// callback AFTER the callback has returned nil, so that bbolt rolls the transaction back and
+// DiskStore.Write returns an error although the callback succeeded (what tx.Commit failing looks
+// like to the caller of Write)
+var errInjectedCommit = errors.New("verif: injected storage fault at commit")
+
 type Fault struct {
-	Kind string // none | err | psErr | bmget | exit | psExit | exitPre | exitPost
+	Kind string // none | err | psErr | bmget | commitErr | exit | psExit | exitPre | exitPost
 	K    int
 }
 
@@ -40,7 +48,7 @@ func parseFault(s string) Fault {
 
 func (f Fault) String() string {
 	switch f.Kind {
-	case "none", "exitPre", "exitPost":
+	case "none", "exitPre", "exitPost", "commitErr":
 		return f.Kind
 	}
 	return fmt.Sprintf("%s:%d", f.Kind, f.K)
@@ -184,6 +192,13 @@ func (p proxyStore) Write(f func(diskstore.BucketManager) error) error {
 			c.marker("closure-returned ok")
 			if c.fault.Kind == "exitPre" {
 				c.die("right before commit")
+			}
+			if c.fault.Kind == "commitErr" {
+				c.mu.Lock()
+				c.fired = "C:commit"
+				c.mu.Unlock()
+				c.marker("commit-fault-injected")
+				return errInjectedCommit // bbolt rolls back; Write returns this error
 			}
 		}
 		return e
